@@ -29,7 +29,7 @@ THRESHOLDS = {"quick": {**{f"c05:{f}:{c}": 30 for f in FORMATS for c in ("memory
                         "c05:collection-empty-member": 10, "c05:no-meta-at-all": 30, "c05:precollected": 30, "c05:with-meta": 100,
                         "c05:len>=100": 8, "c05:one-cell-solution": 30, "c05:two-cell-solution": 30, "c05:meta-keys-compared": 100,
                         "c05:auto-picked-minimal": 20, "c05:auto-picked-full": 20,
-                        "c05:solution>127-cells": 20, "c05:solution>255-cells": 3, "c05:len>127": 8, "c05:filter-history": 100, "c05:filter-history-repeated-entry": 30, "c05:total-solution-cells>32767": 8}}
+                        "c05:solution>127-cells": 20, "c05:solution>255-cells": 3, "c05:len>127": 8, "c05:float-metadata-key-many-digits": 60, "c05:collection-members-with-equal-configs": 20, "c05:filter-history": 100, "c05:filter-history-repeated-entry": 30, "c05:total-solution-cells>32767": 8}}
 THRESHOLDS["thorough"] = dict(THRESHOLDS["quick"])
 ANCHORS = ["maze_dataset.dataset.maze_dataset:MazeDataset.serialize", "maze_dataset.dataset.maze_dataset:MazeDataset.load",
            "maze_dataset.dataset.maze_dataset:MazeDataset._load_full", "maze_dataset.dataset.maze_dataset:MazeDataset._load_minimal",
@@ -139,7 +139,11 @@ def build_dataset(ctx, rng, j):
         warnings.simplefilter("ignore")
         if kind in (0, 1, 2):
             gen, kw = [("gen_dfs", {}), ("gen_wilson", {}), ("gen_percolation", dict(p=1.0)), ("gen_dfs_percolation", dict(p=0.3)),
-                       ("gen_dfs", dict(accessible_cells=max(2, g))), ("gen_prim", {}), ("gen_dfs", dict(do_forks=False))][int(rng.integers(7))]
+                       ("gen_dfs", dict(accessible_cells=max(2, g))), ("gen_prim", {}), ("gen_dfs", dict(do_forks=False)),
+                       ("gen_dfs_percolation", dict(p=1 / 3)), ("gen_percolation", dict(p=0.9876543210123)), ("gen_dfs_percolation", dict(p=0.1 * 3)),
+                       ("gen_dfs", dict(accessible_cells=0.123456789012))][int(rng.integers(11))]
+            if isinstance(kw.get("p", kw.get("accessible_cells")), float) and len(repr(kw.get("p", kw.get("accessible_cells")))) > 9:
+                tags.append("float-metadata-key-many-digits")
             if gen == "gen_wilson" and n >= 100:
                 gen = "gen_dfs"
             cfg = MazeDatasetConfig(name=f"c05-{j}", grid_n=g, n_mazes=n, maze_ctor=GENERATORS_MAP[gen], maze_ctor_kwargs=kw,
@@ -295,7 +299,18 @@ def collections(ctx, j, rng):
         with warnings.catch_warnings():
             warnings.simplefilter("ignore")
             members = []
+            twins = (j % 3 == 2)  # members whose configs compare equal (n_mazes is excluded from comparison) but whose contents differ
+            if twins:
+                ctx.tally("c05:collection-members-with-equal-configs")
+            g_tw, seed_tw = int(rng.integers(2, 6)), int(rng.integers(1 << 30))
             for t, L in enumerate(lens):
+                if twins:
+                    cfg = MazeDatasetConfig(name="twin", grid_n=g_tw, n_mazes=L, maze_ctor=GENERATORS_MAP["gen_dfs"], maze_ctor_kwargs={}, seed=seed_tw)
+                    ds_t = MazeDataset.generate(cfg)
+                    if t % 2 and len(ds_t.mazes) > 1:
+                        ds_t = MazeDataset(cfg, list(reversed(ds_t.mazes)))  # same config, mazes in another order
+                    members.append(ds_t)
+                    continue
                 cfg = MazeDatasetConfig(name=f"m{t}", grid_n=int(rng.integers(2, 6)), n_mazes=L,
                                         maze_ctor=GENERATORS_MAP[["gen_dfs", "gen_dfs_percolation"][t % 2]],
                                         maze_ctor_kwargs=[{}, dict(p=0.3)][t % 2], seed=int(rng.integers(1 << 30)))
